@@ -43,7 +43,23 @@ func propAgeing(t *vt.T) {
 	}
 	total := nx
 	w.Quiet = true
+	late := t.IntRange("lateSubjects", 0, 2)
 	for total < 999 {
+		if total > 400 && late > 0 {
+			// subjects whose file time is later than the first deliveries (the
+			// log window that has to be reloaded for them starts later)
+			w.Advance(2 * time.Minute)
+			for ; late > 0; late-- {
+				v := &Version{Name: fmt.Sprintf("x/late%d.dat", late), Data: s.newContent(1 + t.IntRange("lateSize", 0, 9)), Time: time.Now().Add(-time.Second)}
+				w.AddVersion(v)
+				subjects = append(subjects, v)
+				s.files = append(s.files, &fileState{cur: v, parts: tile(v, s.psize)})
+				w.Request(tile(v, s.psize))
+				total++
+				t.Class("late-subject")
+			}
+			nx = len(subjects)
+		}
 		var req []PartSpec
 		for k := 0; k < 40 && total < 999; k++ {
 			v := mk(total)
